@@ -603,3 +603,81 @@ class Facts(object):
 
 def build_cfg(func_info):
     return CFG(func_info.node, func_info.qualname)
+
+
+# ------------------------------------------------------- reaching definitions
+def node_defs(n):
+    """Names (plain identifiers) bound by CFG node n."""
+    a = n.ast
+    out = set()
+    if n.kind == "for":
+        for x in ast.walk(a.target):
+            if isinstance(x, ast.Name):
+                out.add(x.id)
+    elif n.kind == "with_enter":
+        for it in a.items:
+            if it.optional_vars is not None:
+                for x in ast.walk(it.optional_vars):
+                    if isinstance(x, ast.Name):
+                        out.add(x.id)
+    elif n.kind == "handler":
+        if a.name:
+            out.add(a.name)
+    elif n.kind == "stmt" and a is not None:
+        if isinstance(a, (ast.FunctionDef, ast.ClassDef)):
+            out.add(a.name)
+        elif isinstance(a, (ast.Import, ast.ImportFrom)):
+            for al in a.names:
+                out.add((al.asname or al.name).split(".")[0])
+        else:
+            targets = []
+            if isinstance(a, ast.Assign):
+                targets = a.targets
+            elif isinstance(a, (ast.AugAssign, ast.AnnAssign)):
+                targets = [a.target]
+            for t in targets:
+                for x in ast.walk(t):
+                    if isinstance(x, ast.Name) and isinstance(x.ctx, ast.Store):
+                        out.add(x.id)
+            for x in ast.walk(a):
+                if isinstance(x, ast.NamedExpr):
+                    out.add(x.target.id)
+    return out
+
+
+class ReachingDefs(object):
+    """IN[node] : name -> frozenset of defining node ids (0 = parameter / entry)."""
+
+    def __init__(self, cfg, params=()):
+        self.cfg = cfg
+        init = {p: frozenset([0]) for p in params}
+
+        def transfer(n, s):
+            d = node_defs(n)
+            if not d:
+                return s
+            s = dict(s)
+            for name in d:
+                s[name] = frozenset([n.id])
+            return s
+
+        def join(a, b):
+            out = dict(a)
+            for k, v in b.items():
+                out[k] = out.get(k, frozenset()) | v
+            return out
+
+        self.IN, self.OUT = solve(cfg, init, transfer, join=join, exc_state=lambda n, a, b: join(a, b))
+
+    def at(self, node, name):
+        return self.IN.get(node.id, {}).get(name, frozenset())
+
+    def describe(self, ids):
+        out = []
+        for i in sorted(ids):
+            if i == 0:
+                out.append("<param>")
+            else:
+                n = self.cfg.nodes[i]
+                out.append("L%d:%s" % (n.lineno, src(n.ast).split("\n")[0][:50] if n.ast is not None else n.kind))
+        return out
